@@ -237,6 +237,27 @@ Theorem C09_lattice_elements : forall (d : dict cell) (next key : Z) (univs : li
 Proof. exact develop_lattice_spec. Qed.
 Print Assumptions C09_lattice_elements.
 
+(* lattice and fill composed: after develop_lattice of cell [key] and the "treat
+   FILL" loop, the leaf at the head of a returned cell's chain is either a parsed
+   cell other than the lattice cell (whose material/density the returned cell
+   carries) or an element cell of the lattice — an array entry naming the
+   lattice's own universe — and then the returned cell carries the material and
+   density of the lattice cell itself *)
+Theorem C09_lattice_leaf_material :
+  forall (d : dict cell) (next key : Z) (univs : list Z) (c : cell) (d1 : dict cell) (n1 : Z)
+         (fuel : nat) (st' : state) (ks : list Z),
+  NoDup (map fst d) -> pristine d -> fresh (d, next) -> lookup key d = Some c ->
+  develop_lattice (d, next) key univs = Ok (d1, n1) ->
+  treat_fill fuel d1 n1 = Ok (st', ks) ->
+  Forall (fun k => exists ck, lookup k (fst st') = Some ck /\ c_fill ck = None /\
+            let h := head_of (fst st') k in
+            (forall L, lookup h d = Some L ->
+               h <> key /\ c_fill L = None /\ c_mat ck = c_mat L /\ c_dens ck = c_dens L) /\
+            (lookup h d = None ->
+               (next < h <= n1)%Z /\ c_mat ck = c_mat c /\ c_dens ck = c_dens c)) ks.
+Proof. exact lattice_leaf_material. Qed.
+Print Assumptions C09_lattice_leaf_material.
+
 (* cell 1 (void) filled with universe 1 = the lattice cell 2 of material 3
    whose array is [1; 5; 0; 1] (own universe twice, universe 5 once), universe
    5 = {cell 3 of material 1}: three new level-0 cells, two of material 3 (the
